@@ -35,6 +35,8 @@ type Addr struct {
 	T     types.Type
 	fld   int
 	path  []pathEl
+	sl    *Term // aElem reached through a slice: the slice and the index
+	idx   *Term
 }
 
 // RV is the translation-time value of an SSA register.
@@ -92,16 +94,20 @@ type WriteSet struct {
 	cells map[*ssa.Alloc]bool
 	ghost map[ssa.Value]bool
 	comps map[string]string // name -> sort
+	types map[string]types.Type
 	all   bool
 }
 
 func newWriteSet() *WriteSet {
-	return &WriteSet{cells: map[*ssa.Alloc]bool{}, ghost: map[ssa.Value]bool{}, comps: map[string]string{}}
+	return &WriteSet{cells: map[*ssa.Alloc]bool{}, ghost: map[ssa.Value]bool{}, comps: map[string]string{}, types: map[string]types.Type{}}
 }
 
 func (w *WriteSet) addAll(o *WriteSet) {
 	for k, v := range o.comps {
 		w.comps[k] = v
+	}
+	for k, v := range o.types {
+		w.types[k] = v
 	}
 	if o.all {
 		w.all = true
